@@ -4,6 +4,8 @@ CONSTANTS
   Ctxs = {"top", "fn"}
   CondSet = {}
   MaxConds = 0
+  ElseSet = {}
+  NCondSet = {}
   AVals <- NearInch
   BVals = {1}
   TVals <- NoInts
